@@ -233,7 +233,9 @@ def run_selftest(prop, results, seed):
                "sidecars": r.get("sidecars", []), "obligation_name": None, "model": w["model"], "uses": r["uses"], "loops": [], "kind": "selftest"}
         json.dump(doc, open(rp, "w"), default=str)
         nat = native_replay(rp)
-        ok = nat.get("outcome") == "not-reproduced" and not nat.get("failed") and nat.get("evaluated") == w["ensures"]
+        # the same obligations are evaluated (as a set: harnesses may evaluate an obligation once per guarded element
+        # symbolically and once per concrete element natively)
+        ok = nat.get("outcome") == "not-reproduced" and not nat.get("failed") and set(nat.get("evaluated") or []) == set(w["ensures"])
         return (r["harness"], ok, nat, w["ensures"])
 
     out = {"replayed": 0, "agree": 0, "mismatches": []}
